@@ -32,6 +32,11 @@ func (eu *executeUnit) cycle(ctx *risc.Context, app risc.Application, inBus *com
 		if eu.remainingCycles != 0 {
 			return false, 0, false, nil
 		}
+		if !outBus.CanAdd() {
+			// The result must not overwrite an entry still waiting on the bus
+			eu.remainingCycles = 1
+			return false, 0, false, nil
+		}
 		eu.pendingMemoryRead = false
 		defer func() {
 			eu.runner = risc.InstructionRunnerPc{}
